@@ -206,6 +206,7 @@ def run(prog, chk):
             else:
                 chk.ok("R10.4", "writer-dropped", "writer dropped on every path from write_all to Ok", function=hb.name)
     here_queue_rule(prog, chk)
+    redirect_failure_contained_rule(prog, chk)
 
 
 HERE_QUEUE_FIELD = "current_here_tags"
@@ -279,3 +280,39 @@ def here_queue_rule(prog, chk):
                     chk.ok("R10.6", "back-appends-pending@%s" % short(fn), "back access only appends pending tokens to the newest tag", function=fn)
     chk.floor("R10.6", "front accesses to the here-document queue", nfront, 2)
     chk.note("here_queue_back_accesses", nback)
+
+
+def redirect_failure_contained_rule(prog, chk):
+    """R10.7: a redirection that cannot be set up fails the command it is attached to (status 1, diagnostic) and the enclosing list goes
+    on. In the command executors (simple and compound commands) the error of setup_redirect is handled on the spot — it does not feed a
+    `?` exit, which would abandon the rest of the list the command belongs to."""
+    from dataflow import forward_taint
+    chk.rule("R10.7", "the command executors handle a setup_redirect error locally (diagnostic + general error result); its error never feeds their own `?` exit")
+    n = 0
+    for fn in ("<brush_parser::ast::Command as brush_core::interp::ExecuteInPipeline>::execute_in_pipeline",
+               "<brush_parser::ast::SimpleCommand as brush_core::interp::ExecuteInPipeline>::execute_in_pipeline"):
+        b = prog.impl_body(fn)
+        if not chk.anchor("R10.7", fn, b):
+            continue
+        c = cfg_of(b)
+        sites = [(bb, t) for bb, t in b.calls() if (t.best_callee() or "") == SETUP and bb in c.reach]
+        if not sites:
+            continue
+        for bb, t in sites:
+            n += 1
+            from dataflow import flow_back
+            leaks = []
+            for xb, xt in b.calls():
+                if (xt.best_callee() or xt.callee or "").endswith("Try>::branch") and xb in c.reachable_after(bb) and xt.args:
+                    vias = {v for f in flow_back(b, defs_of(b), xt.args[0], all_args=False) for v in f.via}
+                    if SETUP in vias and not any(("fmt" in v or "write" in v.lower()) for v in vias):
+                        leaks.append(xb)
+            short_fn = fn.split(" as ")[0].lstrip("<").rsplit("::", 1)[-1]
+            if leaks:
+                chk.fail("R10.7", fn, "redirect-error-propagated",
+                         "%s propagates the error of setup_redirect with `?` (line %s): a redirection that cannot be opened on this kind of command abandons the rest "
+                         "of the enclosing list — in `for i in 1 2; do { :; } > /nonexistent/y; echo $i; done; echo end` nothing after the failing command runs"
+                         % (fn, b.blocks[leaks[0]].term.line))
+            else:
+                chk.ok("R10.7", "redirect-error-handled@%s:%d" % (short_fn, n), "the error is turned into a result in place", function=fn)
+    chk.floor("R10.7", "setup_redirect calls in the command executors", n, 2)
